@@ -55,7 +55,20 @@ func DefaultStr(r *core.Rand) string {
 var extraKeys = []string{"agents", "retry", "timeout_in_minutes", "soft_fail", "if", "depends_on", "artifact_paths", "branches", "concurrency", "parallelism",
 	"notify", "priority", "skip", "allow_dependency_failure", "fields", "prompt", "build", "async", "x-custom", "zz_unknown"}
 
-var AdversarialKeys = []string{"", "<<", "1", "true", "yes", "~", "0x1f", "Key", "KEY", "Label", "steps ", "name", "id", "identifier", "commands", "command", "null", "3.5", "a b", "é"}
+var AdversarialKeys = []string{"", "<<", "1", "true", "yes", "~", "0x1f", "Key", "KEY", "Label", "steps ", "name", "id", "identifier", "commands", "command", "null", "3.5", "a b", "é",
+	"True", "TRUE", "False", "FALSE", "Null", "NULL", "Yes", "ON", "Off"}
+
+// ControlKeys: keys carrying control characters and non-printable runes (legal in quoted YAML / JSON escapes);
+// only for properties whose domain is every byte string.
+var ControlKeys = []string{"bel\a", "vt\vkey", "nul\x00", "del\x7f", "tag\U000e0001", "esc\x1b[0m"}
+
+// KeyWithControls: DefaultKey, sometimes a key with a control character.
+func KeyWithControls(r *core.Rand) string {
+	if r.Intn(12) == 0 {
+		return core.Pick(r, ControlKeys)
+	}
+	return DefaultKey(r)
+}
 
 func DefaultKey(r *core.Rand) string {
 	if r.Intn(5) == 0 {
@@ -139,6 +152,10 @@ func (o *Opts) strish() any {
 	case 1:
 		return r.Bool()
 	case 2:
+		if r.Intn(4) == 0 {
+			// floats whose fmt.Sprint form uses an exponent (the documented string form of a float scalar)
+			return core.Pick(r, []any{1e21, 1.0e+6, -1234567.5, 2.5e-7, 0.00001, 1e-7, 123456789.125})
+		}
 		return float64(r.Intn(100)) + 0.5
 	}
 	return o.str()
